@@ -326,7 +326,7 @@ func Run(c *hx.Ctx) {
 		h2tCases(c)
 		return
 	}
-	if len(c.Args) >= 1 && c.Args[0] == "e2e" { // only the end-to-end kind (4 args: one given plan)
+	if len(c.Args) >= 1 && (c.Args[0] == "e2e" || c.Args[0] == "e2ex") { // only the end-to-end kinds (4 / 5 args: one given plan)
 		runE2E(c, hx.NewRng(c.Seed^0xe2e0e2e))
 		return
 	}
